@@ -68,7 +68,7 @@ def main():
     chk.cov["distinct_nontrivial"] = sum(1 for e in events if e["obs"]["expanded"])
     chk.cov["negative_probes_rejected"] = sum((not e["obs"]["w_send"]) + (not e["obs"]["w_nonsend_body"]) for e in events)
     chk.cov["rule"] = ("{fn, mod, entraited trait (Self), static dependency inversion, and with async_trait: trait (Self / ref), static / dyn "
-                       "dependency inversion; the attribute written bare and as `async_trait(?Send)`} x return {omitted, owned, borrowed from deps, borrowed from an argument, generic" + (", tuple, Result<u8, String>, &'static str" if thorough else "") + "} x ?Send x {plain, with the `mockall` option (fn / mod / trait)}; three "
+                       "dependency inversion; the attribute written bare and as `async_trait(?Send)`} x return {omitted, owned, borrowed from deps, borrowed from an argument, generic" + (", tuple, Result<u8, String>, &'static str" if thorough else "") + "} x ?Send {absent, bare, written `= true` / `= false`} x {plain, with the `mockall` option (fn / mod / trait)}; three "
                        "renderings per input (Output witness + run, Send-requiring generic caller, !Send body); non-trivial = expanded")
     chk.cov["exhaustive"] = True
     chk.cov["build_iterations"] = iters
